@@ -155,4 +155,13 @@ Proof.
   destruct (C14.run Name I Out name_eqb f vsize (st0 Name Out) batches) as [[s' ys']|]; [|discriminate].
   cbn [option_map snd] in H. inversion H; subst. destruct Hr as (z' & Hz & _). rewrite Hz. reflexivity.
 Qed.
+(* a body whose single iteration is the same state transformer as that of the reference body runs the same loop *)
+Lemma zrun_f_ext fuel body :
+  (forall fname outs z, exec Name Out name_eqb vsize fuel body fname outs z [] = exec Name Out name_eqb vsize 2 spec_body fname outs z []) ->
+  forall batches z, zrun_f Name Out name_eqb vsize fuel body z batches = zrun Name Out name_eqb vsize spec_body z batches.
+Proof.
+  intros Hb. induction batches as [|[fname outs] t IH]; intros z; cbn [zrun zrun_f]; [reflexivity|].
+  rewrite Hb. destruct (exec Name Out name_eqb vsize 2 spec_body fname outs z []) as [[s' ys]|]; [|reflexivity].
+  rewrite IH. reflexivity.
+Qed.
 End Refine.
